@@ -207,6 +207,27 @@ def run_property(pid, tier="quick", seed=0, jobs=None):
             violations.append((f"bounded:{b['name']}", path, True))
 
     unknown_ids = [k for k, st in id_status.items() if st == "unknown"]
+    # An undecided obligation is not a violation; but the bounded search of the real functions against
+    # the executable statement may turn it into one (DESIGN 4.2 step 3).
+    if unknown_ids and not violations and hasattr(mod, "witness_search"):
+        if "w" not in witness_cache:
+            try:
+                witness_cache["w"] = mod.witness_search(tier, seed)
+            except Exception as e:
+                witness_cache["w"] = None
+                errors.append(f"witness search crashed: {type(e).__name__}: {e}")
+        if witness_cache["w"]:
+            k = sorted(unknown_ids)[0]
+            o = by_id[k][0]
+            path = os.path.join("replay", f"{pid}-0.json")
+            with open(os.path.join(VERIF, path), "w") as f:
+                json.dump(dict(property=pid, obligation=k, unit=o["unit"],
+                               verdict="obligation undecided by the solvers (unknown); failing input found by bounded search of the real functions against the executable statement",
+                               path=o["path"], formula=o["detail"], counter_model=o.get("model"),
+                               witness_from_search=witness_cache["w"], reproduced_on_real_code=True,
+                               undecided_obligations=sorted(unknown_ids), tree=_tree_sha(),
+                               rerun=f"./check {pid} --tier {tier}"), f, indent=1, default=str)
+            violations.append((k, path, True))
     n_ob = len(id_status)
     n_dis = sum(1 for st in id_status.values() if st == "discharged")
 
